@@ -390,3 +390,22 @@ pub fn property() -> Property {
         ],
     }
 }
+
+pub fn seed_files(ctx: &Ctx, n: usize) -> Vec<(String, Vec<u8>)> {
+    let strat = strategy(ctx);
+    let mut out = vec![];
+    let mut seen = std::collections::HashSet::new();
+    let mut k = 0u64;
+    while out.len() < n && k < 400 {
+        let c = draw_fixed(&strat, 0xC13_5EED + k);
+        k += 1;
+        // one seed per format first, small images
+        if c.width as usize * c.height as usize * c.depth as usize > 1024 || (seen.len() < 4 && !seen.insert(c.format)) {
+            continue;
+        }
+        let mut file = header(&c);
+        file.extend_from_slice(&payload(&c));
+        out.push((format!("gen{}-{}", out.len(), format_name(c.format)), file));
+    }
+    out
+}
